@@ -132,3 +132,40 @@ Theorem C08_ulp_all : forall sig e f, (0 < sig)%N -> (sig <= u64_max)%N ->
 Proof. exact FloatUlp5b.C08_ulp_all. Qed.
 Print Assumptions C08_ulp_all.
 
+From Coq Require Import String ZArith Lia ZifyBool ZifyNat ZifyN.
+From SJ Require Import Base.Bytes Base.FloatB Gen.Tables Model.Read Model.Num Model.NumParseAst Gen.NumParseTables Proofs.NumInt
+  Proofs.FloatDefault Proofs.NumParseSrc.
+From Flocq Require Import Core BinarySingleNaN.
+From SJ Require Import Proofs.NumParseSrc2.
+Theorem C08_number_parser_is_source : forall (E : env), float_roundtrip (cf E) = false ->
+  forall (positive : bool) (s : st) (fuel : nat),
+  (forall zs pe, (length (rest s) + 5 <= fuel)%nat ->
+     run fuel E NUMPARSE "parse_exponent_overflow" [VB positive; VB zs; VB pe] s = liftF (Num.parse_exponent_overflow E positive zs pe s)) /\
+  (forall sig se, (sig <= u64_max)%N -> i32_ok se -> (length (rest s) + 16 <= fuel)%nat ->
+     run fuel E NUMPARSE "parse_exponent" [VB positive; VInt U64 (Z.of_N sig); VInt I32 se] s = liftF (Num.parse_exponent E positive sig se s)) /\
+  (forall sig e, (sig <= u64_max)%N -> i32_ok e -> (length (rest s) + 20 <= fuel)%nat ->
+     run fuel E NUMPARSE "parse_decimal_overflow" [VB positive; VInt U64 (Z.of_N sig); VInt I32 e] s =
+     liftF (Num.parse_decimal_overflow E positive sig e s)) /\
+  (forall sig eb, (sig <= u64_max)%N ->
+     -2147483648 <= eb - Z.of_nat (length (rest s)) -> eb <= 2147483647 -> Z.of_nat (length (rest s)) <= 2147483648 ->
+     (length (rest s) + 30 <= fuel)%nat ->
+     run fuel E NUMPARSE "parse_decimal" [VB positive; VInt U64 (Z.of_N sig); VInt I32 eb] s = liftF (Num.parse_decimal E positive sig eb s)) /\
+  (forall sig, (sig <= u64_max)%N -> Z.of_nat (length (rest s)) <= 2147483647 -> (length (rest s) + 38 <= fuel)%nat ->
+     run fuel E NUMPARSE "parse_long_integer" [VB positive; VInt U64 (Z.of_N sig)] s = liftF (Num.parse_long_integer E positive sig s)) /\
+  (forall sig, (sig <= u64_max)%N -> Z.of_nat (length (rest s)) <= 2147483648 -> (length (rest s) + 34 <= fuel)%nat ->
+     run fuel E NUMPARSE "parse_number" [VB positive; VInt U64 (Z.of_N sig)] s = liftP (Num.parse_number E positive sig s)) /\
+  (Z.of_nat (length (rest s)) <= 2147483647 -> (length (rest s) + 47 <= fuel)%nat ->
+     run fuel E NUMPARSE "parse_integer" [VB positive] s = liftP (Num.parse_integer E positive s)) /\
+  (forall sig e, (sig <= u64_max)%N -> i32_ok e -> (10 <= fuel)%nat ->
+     run fuel E NUMPARSE "f64_from_parts" [VB positive; VInt U64 (Z.of_N sig); VInt I32 e] s = liftF (Num.f64_from_parts E positive sig e s)).
+Proof. exact (@NumParseSrc2.numparse_model_is_translated_source). Qed.
+Print Assumptions C08_number_parser_is_source.
+
+Theorem C08_overflow_macro_is_source : forall (l : locals) (a d : N),
+  (lookup "significand" l = Some (VInt U64 (Z.of_N a)) -> lookup "digit" l = Some (VInt U64 (Z.of_N d)) ->
+     eval (OVF "significand" "digit" U64 18446744073709551615) l = Ok (VB (overflow_mac a d u64_max))) /\
+  (lookup "exp" l = Some (VInt I32 (Z.of_N a)) -> lookup "digit" l = Some (VInt I32 (Z.of_N d)) ->
+     eval (OVF "exp" "digit" I32 2147483647) l = Ok (VB (overflow_mac a d i32_max))).
+Proof. exact (@NumParseSrc2.overflow_macro_is_translated_source). Qed.
+Print Assumptions C08_overflow_macro_is_source.
+
